@@ -1,4 +1,5 @@
 mod fmtcommon;
+mod gen_wasm_format;
 mod progen;
 mod props;
 mod run;
